@@ -218,7 +218,16 @@ def main(tier):
         if r_:
             G = lambda x: "(Ok (| (F (call Ast.gamma (op add f64 %s (lit 1.0 f64)))) (N (call Ast.gamma (op add f64 %s (lit 1.0 f64))))))" % (x, x)
             tF = T.alpha(canon(chain.peval(r_[1], {("ev", ("A0",)): FLT("a")})))
-            run.ob(M(G("(a)"), tF) is not None, "factorial|eval_number|F", "C10 eval_number: x! of a Float is gamma(x+1)", "%s arm Factorial" % where(m, "::ast::eval"), T.show(tF)[:200])
+            # a whole non-negative Float is a factorial proper: the product 2*..*x (inf above 170), exactly as eval_f64 computes it;
+            # every other Float is gamma(x+1).  (The pinned tree sent every Float through gamma: 5.0! = 119.99999999999969.)
+            XA = ("a",)
+            GA = ("Ok", ("|", ("F", ("call", "Ast.gamma", ("op", "add", "f64", XA, ("lit", "1.0", "f64")))), ("N", ("call", "Ast.gamma", ("op", "add", "f64", XA, ("lit", "1.0", "f64"))))))
+            PROD = ("seq", ("let", "?m", ("lit", "1.0", "f64")), ("for", ("bind", "?i"), ("rangei", ("lit", "2", "usize"), ("cast", "f64", "usize", XA)), ("setop", "mul", "f64", ("var", "?m"), ("cast", "usize", "f64", ("var", "?i")))),
+                    ("Ok", ("|", ("N", ("var", "?m")), ("F", ("var", "?m")))))
+            WANT = ("if", ("op", "ge", "f64", XA, ("lit", "0.0", "f64")),
+                    ("if", ("op", "gt", "f64", ("op", "rem", "f64", XA, ("lit", "1.0", "f64")), ("lit", "0.0", "f64")), GA,
+                     ("if", ("op", "gt", "f64", XA, ("lit", "170.0", "f64")), ("Ok", ("F", ("const", "core::f64::<impl f64>::INFINITY", "_"))), PROD)), GA)
+            run.ob(M(WANT, tF) is not None, "factorial|eval_number|F", "C10 eval_number: x! of a whole non-negative Float is the product 2*..*x (inf above 170), of any other Float gamma(x+1)", "%s arm Factorial" % where(m, "::ast::eval"), T.show(tF)[:300])
             tI = T.alpha(canon(chain.peval(r_[1], {("ev", ("A0",)): INT("a")})))
             eI = M(("if", "_", "_", "?else"), tI)
             run.ob(eI is not None and M(G("(fa)"), eI["?else"]) is not None, "factorial|eval_number|I-large", "C10 eval_number: n! of an Integer outside 0..=20 is gamma(n+1) on its double value", "%s arm Factorial" % where(m, "::ast::eval"), T.show(tI)[:200])
